@@ -12,7 +12,7 @@
    The harness's resend-delay function returns ~1 ms as long as no reply / cancel action was performed and
    one hour afterwards, so the only timers that ever fire are the ones the script lets fire.
    [rq_outcomes] explores EVERY interleaving of the model's processes under these constraints and returns
-   the set of possible (datagrams, rated units, result class); the runner accepts the observed outcome iff
+   the set of possible (datagrams, rated units, result class); the runner accepts the observed rq_outcome iff
    it is in the set (a singleton for all but the genuinely racy scripts).
 
    ---- lookups engine ----
@@ -62,7 +62,7 @@ Definition action_label (a : qaction) : option label :=
   match a with QAReply => Some EReplyArrives | QACancel => Some ECtxCancel | QAClose => Some EServerClose | QANop => None end.
 Definition terminating (a : qaction) : bool := match a with QAReply | QACancel => true | _ => false end.
 
-(* the outcome of the send about to happen, as configuration and state fix it *)
+(* the rq_outcome of the send about to happen, as configuration and state fix it *)
 Definition send_label (sc : qscn) (c : qcfg) (s : qstate) : label :=
   if q_closed s then ESendErr CClosed
   else if qc_blocked c then ESendErr CBlocked
@@ -109,24 +109,24 @@ Definition class_code (k : qclass) : nat :=
   | KStuck => 99
   end.
 
-(* outcome: datagrams, rated units, class, transaction still registered, some process not Done *)
-Definition outcome := (nat * nat * nat * bool * bool)%type.
-Definition outcome_of (s : qstate) : outcome :=
+(* rq_outcome: datagrams, rated units, class, transaction still registered, some process not Done *)
+Definition rq_outcome := (nat * nat * nat * bool * bool)%type.
+Definition rq_outcome_of (s : qstate) : rq_outcome :=
   (q_writes s, q_rated s, class_code (class_of s), q_registered s, negb (all_done s)).
-Definition outcome_eqb (a b : outcome) : bool :=
+Definition rq_outcome_eqb (a b : rq_outcome) : bool :=
   match a, b with
   | (w1, r1, k1, g1, d1), (w2, r2, k2, g2, d2) =>
       Nat.eqb w1 w2 && Nat.eqb r1 r2 && Nat.eqb k1 k2 && Bool.eqb g1 g2 && Bool.eqb d1 d2
   end.
-Fixpoint add_outcome (o : outcome) (l : list outcome) : list outcome :=
+Fixpoint rq_add_outcome (o : rq_outcome) (l : list rq_outcome) : list rq_outcome :=
   match l with
   | [] => [o]
-  | x :: r => if outcome_eqb o x then l else x :: add_outcome o r
+  | x :: r => if rq_outcome_eqb o x then l else x :: rq_add_outcome o r
   end.
-Definition merge_outcomes (a b : list outcome) : list outcome := fold_left (fun acc o => add_outcome o acc) a b.
+Definition rq_merge_outcomes (a b : list rq_outcome) : list rq_outcome := fold_left (fun acc o => rq_add_outcome o acc) a b.
 
 Fixpoint explore (fuel : nat) (sc : qscn) (c : qcfg) (s : qstate) (script : list (qpoint * qaction)) (term : bool)
-  : list outcome :=
+  : list rq_outcome :=
   match fuel with
   | O => [(q_writes s, q_rated s, 98, q_registered s, true)]          (* out of fuel: never with the fuel given *)
   | S f =>
@@ -142,16 +142,21 @@ Fixpoint explore (fuel : nat) (sc : qscn) (c : qcfg) (s : qstate) (script : list
         end in
       let ints := map (fun l => (step c s l, script, term)) (candidate_labels sc c s script term) in
       match env ++ ints with
-      | [] => [outcome_of s]
-      | succs => fold_left (fun acc x => match x with (s', sc', t') => merge_outcomes (explore f sc c s' sc' t') acc end) succs []
+      | [] => [rq_outcome_of s]
+      | succs => fold_left (fun acc x => match x with (s', sc', t') => rq_merge_outcomes (explore f sc c s' sc' t') acc end) succs []
       end
   end.
 
-Definition rq_outcomes (sc : qscn) : list outcome :=
+Definition rq_outcomes (sc : qscn) : list rq_outcome :=
   let c := scn_cfg sc in
   explore (mu c (scn_init sc) + 2 * length (sc_script sc) + 4) sc c (scn_init sc) (sc_script sc) false.
 
-Definition rq_accepts (sc : qscn) (o : outcome) : bool := existsb (outcome_eqb o) (rq_outcomes sc).
+(* constructor wrapper for the runner (no record syntax on the OCaml side) *)
+Definition rq_mk_scn (tries : nat) (nf na wr nw : bool) (budget : option nat) (blocked closed0 : bool) (fail : nat)
+  (script : list (qpoint * qaction)) : qscn :=
+  mkScn tries (mkRL nf na wr nw) budget blocked closed0 fail script.
+
+Definition rq_accepts (sc : qscn) (o : rq_outcome) : bool := existsb (rq_outcome_eqb o) (rq_outcomes sc).
 
 End RunQuery.
 
@@ -226,3 +231,28 @@ Section RunLookups.
 
   Definition rl_all_done (s : lstate) : bool := Lookups.all_done s.
 End RunLookups.
+
+(* ---- constructor wrappers and views for the runner (it never names a record type or field) ---- *)
+Definition rl_mk_cfg (api_code sn_code : nat) (target : N) (ann : option (Z * bool)) (tgt salt : bytes) : lcfg :=
+  mkLC (match api_code with 0 => ABootstrap | 1 => AAnnounce | 2 => AGet | _ => APut end)
+       Repaired true        (* the reference model: D8, D2 repaired; D10 repaired = a delivery is given up once Close() was called *)
+       (match sn_code with 0 => SNOk | 1 => SNErr | _ => SNEmpty end)
+       4000 target ann tgt salt.
+Definition rl_mk_reply (hasr : bool) (id : N) (tok : option bytes) (payload v k sg : bytes) (seq : option Z) : greply :=
+  mkGR hasr id tok payload (mkReply v k sg seq).
+Definition rl_view_sends (s : lstate) : list (N * bytes * N * Z * bool * Z) :=
+  map (fun r => (sr_dest r, sr_token r, sr_ih r, sr_port r, sr_implied r, sr_seq r)) (l_sends s).
+Definition rl_view_peers (s : lstate) : list (N * N * bytes) :=
+  map (fun d => match d with (_, a, i, p) => (a, i, p) end) (l_delivered s).
+(* error code (0 none, 1 start, 2 ctx, 3 not found), autoSeq, current value (seq, v, mutable) *)
+Definition rl_view_result (s : lstate) : nat * Z * option (Z * bytes * bool) :=
+  (match l_err s with None => 0 | Some ErrStart => 1 | Some ErrCtx => 2 | Some ErrNotFound => 3 end,
+   l_autoseq s,
+   match l_cur s with Some g => Some (res_seq g, res_v g, res_mutable g) | None => None end).
+(* Peers closed, every process ended, process died, Announce.Close called, ctx cancelled *)
+Definition rl_view_flags (s : lstate) : bool * bool * bool * bool * bool :=
+  (l_peers_closed s, Lookups.all_done s, l_panic s, l_aclosed s, l_ctx s).
+Definition rl_view_nq (s : lstate) : nat := l_nq s.
+Definition rl_cfg_api (c : lcfg) : nat :=
+  match lc_api c with ABootstrap => 0 | AAnnounce => 1 | AGet => 2 | APut => 3 end.
+
